@@ -22,9 +22,13 @@ import (
 //
 // Job = (shape, head h, start, stop, batch, conc, prior recorded position). For each job the
 // explorer enumerates the interleavings of the task thread (steps until it has reported
-// completion / reached the final head) with an environment thread that grows the chain to
-// h+3, preemption-bounded, and the placement of process restarts (tasks discarded and
-// re-created by the real loadTasks) before any step.
+// completion / reached the final head) with an environment that grows the chain to h+3,
+// preemption-bounded, and the placement of process restarts (tasks discarded and re-created
+// by the real loadTasks) before any step. The environment's only operation (replace the
+// node's chain) is atomic and commutes with everything but JSON-RPC exchanges, so it is
+// modelled as a harness-level choice at step boundaries and at every exchange instead of a
+// thread (an always-enabled second thread multiplied the schedules by the pending head
+// poller of the client without adding behaviours).
 
 type c06Job struct {
 	Shape string `json:"shape"`
@@ -51,8 +55,8 @@ func init() {
 		ID:        "C06",
 		Level:     "model_checking",
 		Technique: "stateless model checking of the real pipeline (controlled scheduler over instrumented code, fake Postgres, simulated node): every (start, stop) pair relative to the head x batch x concurrency x prior recorded position, all interleavings of task steps with head growth up to a preemption bound, every placement of a process restart; range oracle evaluated on every commit",
-		Rule: "jobs = head h in 1..5 (every block produces rows) x start in 0..h+2 x stop in {unset} u 1..h+2 x batch in 1..3 x conc in 1..2 x prior position in {none, inside the range (produced by really running the task on a shorter chain), at stop} x shape {L1 headers+logs, T1 blocks}; " +
-			"per job every schedule of {task thread, environment thread growing the chain to h+3} with <= 1 preemption, and a restart (tasks discarded, real loadTasks again) before any step (quick: at most one per execution; thorough: up to two, in any combination with two placed growth operations, total two). " +
+		Rule: "jobs = head h in 1..5 (every block produces rows) x start in 0..h+2 x stop in {unset} u 1..h+2 x batch in 1..3 x conc in 1..2 x prior position in {none, inside the range (produced by really running the task on a shorter chain), at stop} x shape {L1 headers+logs, T1 blocks} (quick: the shape alternates with batch+conc and one inside position, the middle one; thorough: both shapes, every inside position); " +
+			"per job: the environment grows the chain to h+3 in two operations; by default it acts whenever the task idles (one operation, or both: enumerated); deviations enumerated exhaustively: growth operations placed before any step or at any JSON-RPC exchange of the task (the preemption), and process restarts (tasks discarded, real loadTasks again) before any step. quick: <= 1 placed growth, <= 1 restart, both in one execution only when h <= 2 or start is unset; thorough: <= 2 of each, 2 in total (h = 5: one of each). " +
 			"An execution is non-trivial when rows were written or a restart happened; distinct = distinct (job, choice sequence).",
 		Assumptions: []string{
 			"fake Postgres (h/simpg) interprets the SQL shovel sends; simulated node (h/simeth) answers like a well-behaved geth: a block beyond the head answers result null",
@@ -697,6 +701,16 @@ func c06Run(c *fw.Ctx) {
 		b := c06Bounds(j, c.Thorough())
 		st := explore.Explore(b, true, func(r *explore.Run) bool {
 			res := c06Exec(j, p, r, states, false)
+			// (see C02: a prefix that does not reproduce is re-run twice; only a persistent divergence is reported)
+			if r.Diverged != "" && res.harness == "" {
+				c.Count("diverged_executions_rerun", 1)
+				f1, f2 := explore.Replay(r.Trimmed()), explore.Replay(r.Trimmed())
+				res1 := c06Exec(j, p, f1, states, false)
+				c06Exec(j, p, f2, states, false)
+				if f1.Diverged == "" && f2.Diverged == "" && strings.Join(f1.Labels(), "\n") == strings.Join(f2.Labels(), "\n") {
+					*r, res = *f1, res1 // the two re-runs agree with each other: the first run was the outlier
+				}
+			}
 			if res.harness != "" {
 				c.HarnessError("job %+v choices %v: %s", j, r.Trimmed(), res.harness)
 				return false
